@@ -307,8 +307,9 @@ def shard(ctx):
                     run_one(('select', sel, attr, extra), (pre, unit, suf))
 
         # 3b. custom maps whose definitions refer to each other (input = the whole map): growth in the number of aliases
-        if k < 4:
-            shape = ('fib', 'nest', 'not', 'line')[k]
+        if k < 6:
+            # 'double' / 'twice': every level uses the next one two times (2^n paths through n definitions)
+            shape = ('fib', 'nest', 'not', 'line', 'double', 'twice')[k]
             ts = {}
             for n_al in (6, 10, 14, 18, 22):
                 res = w.ask({'op': 'compile-custom', 'n': n_al, 'shape': shape})
